@@ -378,6 +378,8 @@ RULES = [
 
 from . import shared
 RULES = RULES + shared.bundle('C05', ['carry', 'gate', 'restart', 'driver', 'values', 'stride', 'centre'], ['details', 'weights', 'direct_model'])
+from .. import refs as _refs
+RULES = RULES + [_refs.ref_rule('C05')]
 
 
 def run(tier="quick", replay=None):
